@@ -847,6 +847,11 @@ pub fn run_c09(tier: Tier) -> i32 {
     // faults while a stream is open
     bursts.push(vec![CK::W(1, true)]);
     plan.push(("streams/2conns/3calls/7-8events/1fault", mk(2, 3, tier.pick(7, 8), 1, false, &bursts), 0));
+    // a fault strikes while several connections are parked in streams (indices in both server lists shift)
+    let parked: Vec<Vec<CK>> = vec![vec![CK::P], vec![CK::W(1, false)], vec![CK::W(0, true)]];
+    let mut c3 = mk(3, 3, tier.pick(8, 9), 1, false, &parked);
+    c3.faults = vec![Fault::WriteError, Fault::Eof, Fault::Garbage, Fault::ReadError];
+    plan.push(("streams/3conns/3calls/8-9events/1fault", c3, 0));
     let mut a = base_assumptions();
     a.push("a connection struck by EOF / read error / write error may lose replies (its output must stay a prefix of its model); one that sent an undecodable frame is unconstrained afterwards (the server may answer it or drop it); every other connection must match its model exactly".into());
     a.push("this check is built with the buffer limit lowered to 4096 bytes (hook zlink_verif_small_buf), so that an oversized frame is an affordable fault".into());
